@@ -141,6 +141,13 @@ class Engine:
         self.inlined: set = set()
         self.fork_count = 0
         self.f_state = repo.find_func("_global_state.py", "state")
+        # the compare-only flag: the module global that compare_context() re-binds
+        self.co_tag = CO_TAG
+        cc = repo.find_func("_compare_context.py", "compare_context")
+        if cc is not None:
+            gl = [nm for st in ast.walk(cc.node) if isinstance(st, ast.Global) for nm in st.names]
+            if len(gl) == 1:
+                self.co_tag = ("global", "_compare_context.py", gl[0])
         self.f_clone = repo.find_func("_snapshot/generic_value.py", "clone")
 
     # ------------------------------------------------------------ predicates
@@ -163,7 +170,7 @@ class Engine:
             if self.val["F." + t[2]] is None:
                 return p.assumed(t)
             return self.val["F." + t[2]]
-        if t == CO_TAG:
+        if t == self.co_tag:
             self.preds_seen.add("CO")
             if self.val["CO"] is None:
                 return p.assumed(t)
